@@ -690,7 +690,8 @@ def use (P, y):
   return n
 
 LISTY = ('actions', 'ports', 'queues', 'properties', 'spec', 'slaves', 'body')
-EDIT_MODES = ('reverse', 'replace', 'mutate')
+EDIT_MODES = ('reverse', 'replace', 'mutate', 'resize')
+_SIZE = {}
 
 def list_fields (v):
   """[(vector key, element list, wrap)] for the list-valued members with >= 2 elements"""
@@ -707,21 +708,52 @@ def list_fields (v):
     out.append((f, lst, wrap))
   return out
 
+def elem_size (P, f, e):
+  """encoded size of one list element (None: unknown)"""
+  if f == 'spec':
+    try: return len(sp_learn_spec(e))
+    except Exception: return None
+  if not (isinstance(e, list) and len(e) == 2 and e[0] in KINDS): return None
+  key = repr(e)
+  if key not in _SIZE:
+    try: _SIZE[key] = len(sub(P, e)[0].pack())
+    except Exception: _SIZE[key] = None
+  return _SIZE[key]
+
+def resize_candidate (P, f, cur):
+  """an element to put in place of cur[0] whose encoding has another size"""
+  s0 = elem_size(P, f, cur[0])
+  if s0 is None: return None
+  cands = list(cur[1:])
+  if f == 'actions': cands += [atom('ofp_action_enqueue'), atom('ofp_action_output')]
+  if f == 'spec': cands += LEARN_SPECS
+  e = cur[0]
+  if isinstance(e, list) and len(e) == 2 and isinstance(e[1], dict):
+    for g, extra in (('actions', atom('ofp_action_enqueue')), ('properties', ['ofp_queue_prop_min_rate', {'rate': 77}])):
+      if isinstance(e[1].get(g), list):
+        cands.append([e[0], dict(e[1], **{g: e[1][g] + [extra]})])     # the same element, one nested member longer
+  for c in cands:
+    sc = elem_size(P, f, c)
+    if sc is not None and sc != s0: return c
+  return None
+
 def edit_phase (P, K, v, b, flags, V, raised, own, state):
-  """encode -> in-place edit of a list-valued member that keeps its length (reverse it / replace
-  an element / change the fields of an element) -> encode: must be the encoding of the edited
-  value.  Quick tier: one of the three edits per (case, list), chosen by a checksum of the vector
-  (lists left at the kind's base value: every 4th case, also by checksum);
-  thorough tier: all three, each on its own object, plus reverse-then-replace on one object."""
+  """encode -> in-place edit of a list-valued member that keeps its number of elements (reverse
+  it / replace an element / change the fields of an element / replace an element by one of
+  another encoded size) -> encode: must be the encoding of the edited value.  Quick tier: one of
+  the four edits per (case, list), chosen by a checksum of the vector (lists left at the kind's
+  base value: every 4th case, also by checksum); thorough tier: all four, each on its own object,
+  plus reverse-then-replace and resize-then-reverse on one object."""
   lf = list_fields(v)
   if not lf: return True
   crc = zlib.crc32(repr(v).encode())
-  pick = crc % 3
+  pick = crc % 4
   ref = ref_of(P, K)
   for f, lst, wrap in lf:
     if state < 2 and ref is not None and ref[0].get(f) == v[f] and (crc >> 4) % 4:
       continue      # quick tier: a list left at its base value is edited in every 4th case only
-    plans = [[EDIT_MODES[pick]]] if state < 2 else [['reverse'], ['replace'], ['mutate'], ['reverse', 'replace']]
+    plans = [[EDIT_MODES[pick]]] if state < 2 else [['reverse'], ['replace'], ['mutate'], ['resize'], ['reverse', 'replace'],
+                                                     ['resize', 'reverse']]
     for plan in plans:
       try:
         x = K.build(P, v)[0]; x.pack(); V.calls += 2
@@ -729,7 +761,12 @@ def edit_phase (P, K, v, b, flags, V, raised, own, state):
         return True
       cur = list(lst)
       for mode in plan:
-        new = cur[::-1] if mode == 'reverse' else [cur[-1]] + cur[1:]
+        if mode == 'resize':
+          c = resize_candidate(P, f, cur)
+          if c is None: continue
+          new = [c] + cur[1:]
+        else:
+          new = cur[::-1] if mode == 'reverse' else [cur[-1]] + cur[1:]
         if new == cur: continue
         v2 = dict(v); v2[f] = wrap(new)
         try:
@@ -755,6 +792,69 @@ def edit_phase (P, K, v, b, flags, V, raised, own, state):
                     "" if len(bx) != len(by) else ", first difference at offset %d" % next((j for j in range(len(by)) if bx[j] != by[j]), -1)))
           return False
         cur = new
+  return True
+
+
+def nxm_toggle (P, e):
+  """the same NXM entry with a mask added (if it has none) or removed: its encoded size changes"""
+  cls = getattr(P.nx, e['cls'])
+  n = len(e['value']) // 2
+  if e.get('mask') is None:
+    m = b'\x0f\x0f' if issubclass(cls, P.nx._nxm_tcp_flags) else b'\xff' * (n - 1) + b'\xf0'
+    val = bytes(a & c for a, c in zip(bytes.fromhex(e['value']), m))
+    return dict(cls=e['cls'], value=val.hex(), mask=m.hex())
+  return dict(cls=e['cls'], value=e['value'], mask=None)
+
+def nxm_edit_phase (P, K, v, V, raised, own, state):
+  """encode -> change an NXM entry that is already in the object's nx_match IN PLACE so that its
+  encoded size changes (mask added / removed), through attribute assignment on the nx_match
+  (m.<field> = v; m.<field>_mask = k) or through the entry object (e.value, e.mask) -> encode:
+  must be the encoding of the edited value.  Quick: one route per case (checksum), one toggle;
+  thorough: both routes, toggle and toggle back on the same object."""
+  f = 'match' if K.cat == 'nxmsg' and isinstance(v.get('match'), list) else 'parts' if K.cat == 'nxmatch' else None
+  if f is None: return True
+  parts = v[f]
+  idx = next((i for i, e in enumerate(parts) if getattr(P.nx, e['cls'])().allow_mask), None)
+  if idx is None: return True
+  crc = zlib.crc32(repr(v).encode())
+  routes = [('attr', 'entry')[(crc >> 7) & 1]] if state < 2 else ['attr', 'entry']
+  for route in routes:
+    try:
+      x = K.build(P, v)[0]; x.pack(); V.calls += 2
+    except Exception:
+      return True
+    cur = list(parts)
+    for step in range(1 if state < 2 else 2):
+      ne = nxm_toggle(P, cur[idx])
+      new = list(cur); new[idx] = ne
+      v2 = dict(v); v2[f] = new
+      try:
+        y = K.build(P, v2)[0]; by = y.pack(); V.calls += 2
+      except Exception:
+        break
+      try:
+        V.calls += 4
+        m = x if K.cat == 'nxmatch' else x.match
+        cls = getattr(P.nx, ne['cls'])
+        fam = nxm_family(P, cls)
+        val = nxm_val(P, fam, bytes.fromhex(ne['value']))
+        mask = None if ne['mask'] is None else nxm_val(P, fam, bytes.fromhex(ne['mask']))
+        tgt, vname, mname = (m, ne['cls'].lower(), ne['cls'].lower() + '_mask') if route == 'attr' else (m[idx], 'value', 'mask')
+        if mask is None:
+          setattr(tgt, mname, None); setattr(tgt, vname, val)
+        else:
+          setattr(tgt, vname, val); setattr(tgt, mname, mask)
+        bx = x.pack(); lx = len(x)
+      except Exception as e:
+        raised("changing an NXM entry of the match in place (%s, mask %s) and pack() of an already encoded object"
+               % (route, 'removed' if ne['mask'] is None else 'added'), e); return False
+      if bx != by or lx != len(by):
+        V.fail("edited:%s:pack-after-nxm-resize" % own,
+               "%s: encoded, then %s of its nx_match %s a mask in place (via %s), encoded again: %d bytes, len() %d%s; a fresh object with the edited value encodes to %d bytes"
+               % (K.name, ne['cls'], 'lost' if ne['mask'] is None else 'got', 'nx_match attribute assignment' if route == 'attr' else 'the entry object',
+                  len(bx), lx, (", header length %d" % struct.unpack('!H', bx[2:4])[0]) if K.cat == 'nxmsg' and len(bx) >= 4 else "", len(by)))
+        return False
+      cur = new
   return True
 
 
@@ -813,6 +913,7 @@ def state_phases (P, K, v, obj, b, exp, flags, V, raised, ov=None, state=1):
       P.of._logger = None
   # ---- edited after encoding ------------------------------------------------------------
   if not edit_phase(P, K, v, b, flags, V, raised, own, state): return
+  if not nxm_edit_phase(P, K, v, V, raised, own, state): return
   # ---- reused ------------------------------------------------------------------------
   ref = ref_of(P, K)
   if ref is None or K.cat == 'nxm': return
